@@ -202,7 +202,7 @@ func RunWire(a *hlib.Args, e *hlib.Emitter, stream uint64) error {
 			cs = append(cs, &FileCase{Class: "udp", Mtime: g.Mtime, Lines: g.Lines, Queries: GenUdpQueries(g, 36)})
 		}
 	}
-	if err := BuildAll(cs, a.Scratch, 8); err != nil {
+	if err := BuildAll(cs, a.Scratch, 12); err != nil {
 		return err
 	}
 	for _, c := range cs {
